@@ -9,6 +9,9 @@ LEAF_NOTE = ("Trusted: Coq 8.16.1 kernel; no axioms (Print Assumptions: closed u
 
 PROTO_NOTE = 'Trusted: Coq 8.16.1 kernel; no axioms; extraction via ExtrOcamlBasic; OCaml glue (ocaml/driver_proto.ml). The protocol model (coq/Client.v: ftp::client as a free-monad state machine over a scripted peer; coq/DataConn.v: the data loops) is hand-written and tied to the code by running the real ftp::client (harness/client_driver.cpp, public API, loopback TCP) against bin/peer.py on generated histories and comparing, per call, outcome, state, command lines seen by the peer, observer/callback/sink logs and descriptors held with the extracted model fed the observed block sizes; a reference expectation written from the RFC tables (bin/scenarios.py) is the property oracle. Modelled, not verified: kernel TCP, Boost.Asio, OpenSSL, unique_ptr scoping (Scope), reply framing (that tie is C01).'
 CLAIMS = {
+ 'C11': dict(text='Theorems about ordering and gating in the protocol model: a command line is written inside TLS exactly when the TLS layer of the control socket is up, and nothing can be written between the switch to the TLS socket and the completed handshake; connect sends only the fixed line AUTH TLS before the handshake, stops on a negative answer, and runs the handshake before the login program; a failed handshake ends the call without running the login; the data handshake sits between the accepted transfer command and the data loop; a data stream that ends by an error is never reported complete. PARTIAL: that OpenSSL encrypts, verifies chains and reports a missing close-notify is runtime behaviour, observed through the raw bytes the peer logs ahead of its TLS engine (first record after 234 and on every data connection is a handshake record; marker strings never appear in clear).', design='4/C11', note=PROTO_NOTE, technique='Coq proof (gating lemmas on do_send / handshake primitives, program structure) + differential correspondence with raw-byte inspection at the peer'),
+ 'C13': dict(text='Theorems: a non-graceful disconnect from ANY world writes no command and ends disconnected, plain and without TLS state whether it returns or throws; a new connection starts plain, without session and with only the new greeting to read whatever the old buffer held; receiving 421 closes the connection; graceful disconnect = QUIT, its reply, then the same release. The tie: reconnect histories whose first session ends by QUIT, drop, 421, peer close, peer reset, unread replies, a failed handshake or a failing transfer, plain and TLS.', design='4/C13', note=PROTO_NOTE, technique='Coq proof (case analysis on the disconnect / connect primitives for arbitrary worlds) + differential correspondence on reconnect histories'),
+ 'C18': dict(text="Theorems on the abstract TLS dataflow: every data handshake offers the control connection's current session exactly when resumption is configured; that session is the fresh one of the latest successful control handshake and is untouched by command exchanges; no call changes the TLS configuration (same context). PARTIAL: OpenSSL's session semantics are outside the model - the peer's TLS engine reports session_reused per data connection (own session cache per control connection); TLS 1.3 single-use tickets are a recorded KNOWN-FINDING.", design='4/C18', note=PROTO_NOTE, technique='Coq proof (dataflow of the session identifier; generic induction for the configuration) + session_reused observed by the scripted peer'),
  'C02': dict(text="Theorems: the command/reply step consumes exactly the peer's reaction to that command and leaves nothing unread (every call is built from it); simple calls, TYPE and rename return exactly their own replies and keep the session in step; induction over histories of simple calls; 120-then-220 is read by connect and logout. PARTIAL: transfers and ABOR accounting are decided by the correspondence and the lockstep oracle (unique marks in reply texts); two ABOR orderings are recorded KNOWN-FINDINGs (refuted in Coq by a vm_compute witness).", design='4/C02', note=PROTO_NOTE, technique='Coq proof (process_command step lemma, induction over histories) + differential correspondence with reply marks as ground truth'),
  'C03': dict(text='Theorems about the loop of data_connection::recv for every payload and every segmentation: a completed binary download hands the sink exactly the concatenation of the segments, flushes once after the last byte; errors are reported without flush; ASCII variant = from_crlf. PARTIAL: TCP/TLS delivery (in order, once) is assumed; exercised by transfers of the boundary sizes with several segmentation styles, all four methods, IPv4/IPv6.', design='4/C03', note=PROTO_NOTE, technique='Coq proof (induction over segments) + differential correspondence on real loopback transfers'),
  'C04': dict(text="Theorems about the loop of data_connection::send for every chunking of the source: bytes written = concatenation of the chunks (binary) / to_crlf (ASCII); the program order 'close the data connection, then await the completion reply' is fixed in finish_transfer. PARTIAL: the kernel side of write/close is assumed; the peer sends the completion reply only after it saw end-of-file, so a client that waited first would block.", design='4/C04', note=PROTO_NOTE, technique='Coq proof (induction over blocks; composition with the ASCII theorem) + differential correspondence'),
